@@ -9,6 +9,10 @@
   That the coordinator's own label population equals the library's (`scrape.TargetsFromGroup`),
   de-duplication and dropping are compared on every generated target by the `chain` engine.
 -/
+import Kvass.Pins.Chain
+import Kvass.Pins.Inject
+import Kvass.Pins.Disc
+import Kvass.Pins.Proxy
 import Kvass.Model.Chain
 import Kvass.Gen.Chain
 
